@@ -267,11 +267,14 @@ func (rd *remoteDelivery) connectionForDomain(ctx context.Context, domain string
 	// each other. Therefore it is enough to enforce strict security only on
 	// the path to the MX even if it does not support the REQUIRETLS to propagate
 	// this requirement further.
+	// The message itself keeps the flag, recipient domains handled later are
+	// still subject to it.
+	mailOpts := rd.msgMeta.SMTPOpts
 	if ok, _ := conn.Client().Extension("REQUIRETLS"); rd.rt.relaxedREQUIRETLS && !ok {
-		rd.msgMeta.SMTPOpts.RequireTLS = false
+		mailOpts.RequireTLS = false
 	}
 
-	if err := conn.Mail(ctx, rd.mailFrom, rd.msgMeta.SMTPOpts); err != nil {
+	if err := conn.Mail(ctx, rd.mailFrom, mailOpts); err != nil {
 		conn.Close()
 		return nil, err
 	}
